@@ -170,6 +170,7 @@ type simEvent struct {
 	kind  string
 	fn    func()
 	tk    *SimTicker
+	sig   string // what enters the schedule signature (target rather than op number)
 }
 
 type Driver struct {
@@ -193,6 +194,8 @@ type Driver struct {
 	// happens-before edge); a 1ns bubble sleep waits for quiescence instead.
 	RaceMode bool
 	stop     bool
+	// the stimulus being delivered right now ("" between steps)
+	CurKind, CurIdent string
 }
 
 func NewDriver(out *Outcome, seed uint64, clocks ...*SimClock) *Driver {
@@ -211,12 +214,17 @@ func (d *Driver) Settle() {
 
 // At schedules fn at offset at from the run start.
 func (d *Driver) At(at time.Duration, kind, ident string, fn func()) {
-	d.evs = append(d.evs, &simEvent{at: d.Start.Add(at), ident: ident, kind: kind, fn: fn})
+	d.evs = append(d.evs, &simEvent{at: d.Start.Add(at), ident: ident, kind: kind, fn: fn, sig: ident})
+}
+
+// AtSig is At with an explicit schedule-signature target.
+func (d *Driver) AtSig(at time.Duration, kind, ident, sig string, fn func()) {
+	d.evs = append(d.evs, &simEvent{at: d.Start.Add(at), ident: ident, kind: kind, fn: fn, sig: sig})
 }
 
 // AtAbs schedules at an absolute bubble time.
 func (d *Driver) AtAbs(at time.Time, kind, ident string, fn func()) {
-	d.evs = append(d.evs, &simEvent{at: at, ident: ident, kind: kind, fn: fn})
+	d.evs = append(d.evs, &simEvent{at: at, ident: ident, kind: kind, fn: fn, sig: ident})
 }
 
 func (d *Driver) Stop() { d.stop = true }
@@ -317,6 +325,8 @@ func (d *Driver) deliver(e *simEvent) {
 		if st {
 			return
 		}
+		d.CurKind, d.CurIdent = "tick", e.tk.Key
+		d.Out.Step("tick", e.tk.Key)
 		if d.BeforeTick != nil {
 			d.BeforeTick(e.tk)
 		}
@@ -327,7 +337,6 @@ func (d *Driver) deliver(e *simEvent) {
 		default:
 			d.Out.Fault("tick_dropped_receiver_busy")
 		}
-		d.Out.Step("tick", e.tk.Key)
 		d.Settle()
 		if d.AfterTick != nil {
 			d.AfterTick(e.tk, delivered)
@@ -335,14 +344,17 @@ func (d *Driver) deliver(e *simEvent) {
 		if d.AfterStep != nil {
 			d.AfterStep("tick", e.tk.Key)
 		}
+		d.CurKind, d.CurIdent = "", ""
 		return
 	}
-	d.Out.Step(e.kind, e.ident)
+	d.CurKind, d.CurIdent = e.kind, e.ident
+	d.Out.Step(e.kind, e.sig)
 	e.fn()
 	d.Settle()
 	if d.AfterStep != nil {
 		d.AfterStep(e.kind, e.ident)
 	}
+	d.CurKind, d.CurIdent = "", ""
 }
 
 // Run advances simulated time to Start+until, delivering every stimulus due on
@@ -391,11 +403,12 @@ type SimTracer struct {
 	OnStart func(name string, attr func(key string) (attribute.Value, bool))
 	// names for which attributes are decoded for gate keys
 	workerBound map[int64]bool
+	goidWorker  map[int64]int64
 	Clock       *SimClock
 }
 
 func NewSimTracer(node string, clk *SimClock) *SimTracer {
-	return &SimTracer{Node: node, gates: map[string]chan struct{}{}, parked: map[string]int{}, workerBound: map[int64]bool{}, Clock: clk}
+	return &SimTracer{Node: node, gates: map[string]chan struct{}{}, parked: map[string]int{}, workerBound: map[int64]bool{}, goidWorker: map[int64]int64{}, Clock: clk}
 }
 
 var noopSpanV = func() trace.Span {
@@ -431,10 +444,19 @@ func (s *SimTracer) Start(ctx context.Context, name string, opts ...trace.SpanSt
 					if s.Clock.BindByGoid(g, "collect", fmt.Sprintf("%s/worker/%d", s.Node, wid)) {
 						s.mu.Lock()
 						s.workerBound[g] = true
+						s.goidWorker[g] = wid
 						s.mu.Unlock()
 					}
 				}
 			}
+		}
+	}
+	if name == "makeDecision" {
+		s.mu.Lock()
+		wid, ok := s.goidWorker[goid()]
+		s.mu.Unlock()
+		if ok {
+			key = fmt.Sprintf("makeDecision/%d", wid)
 		}
 	}
 	if s.OnStart != nil {
